@@ -168,8 +168,8 @@ fn transforms<B: StarkField, E: FieldElement<BaseField = B>>(field: &str, rng: &
 fn matrices<B: StarkField, E: FieldElement<BaseField = B>>(field: &str, rng: &mut Rng, cases: &mut u64) {
     for (n, col_counts) in [(8usize, vec![1usize, 2, 7, 8, 9, 16, 17, 33, 255]), (64, vec![1, 7, 8, 9, 17]), (512, vec![3, 8, 9])] {
         for &cols in col_counts.iter() {
-            for (blowup, offset) in [(2usize, B::GENERATOR), (8, B::GENERATOR), (4, B::from(((rng.next() >> 34) as u32) | 2))] {
-                let ctx = format!("field={field} rows={n} columns={cols} blowup={blowup}");
+            for (blowup, offset) in [(2usize, B::GENERATOR), (8, B::GENERATOR), (4, B::from(((rng.next() >> 34) as u32) | 2)), (4, B::ONE), (16, B::ONE), (2, B::ONE - B::ONE - B::ONE)] {
+                let ctx = format!("field={field} rows={n} columns={cols} blowup={blowup} offset={offset}");
                 *cases += 1;
                 let values: Vec<Vec<E>> = (0..cols).map(|_| (0..n).map(|_| elem::<E>(rng)).collect()).collect();
                 let trace = ColMatrix::new(values.clone());
@@ -208,8 +208,7 @@ fn matrices<B: StarkField, E: FieldElement<BaseField = B>>(field: &str, rng: &mu
 /// build_segments passes): row r, slot j holds base-field coordinate (poly_offset + j) of the matrix evaluated at
 /// offset * w^r, for every slot that has a polynomial; a buffer handed to new_with_buffer is fully overwritten there
 fn segments<B: StarkField, E: FieldElement<BaseField = B>, const N: usize>(field: &str, rng: &mut Rng, cases: &mut u64) {
-    for (n, cols, blowup) in [(8usize, 3usize, 2usize), (8, 10, 2), (16, 8, 4), (8, 9, 8), (8, 17, 2)] {
-        let offset = B::GENERATOR;
+    for (n, cols, blowup, offset) in [(8usize, 3usize, 2usize, B::GENERATOR), (8, 10, 2, B::GENERATOR), (16, 8, 4, B::GENERATOR), (8, 9, 8, B::GENERATOR), (8, 17, 2, B::GENERATOR), (8, 9, 4, B::ONE)] {
         let values: Vec<Vec<E>> = (0..cols).map(|_| (0..n).map(|_| elem::<E>(rng)).collect()).collect();
         let polys = ColMatrix::new(values.clone());
         let twiddles = fft::get_twiddles::<B>(n);
